@@ -157,7 +157,7 @@ Fixpoint fields_loop (fuel : nat) (acc : list field) : prog (list field) :=
   | S f =>
       fl <- parse_field fuel ;;
       let acc' := acc ++ [fl] in
-      t <- scan_p ;;
+      t <- scan_iw fuel ;;
       match ti_tok t with
       | COMMA => fields_loop f acc'
       | _ => unscan_p ;;; Ret acc'
@@ -221,7 +221,7 @@ Fixpoint dimensions_loop (fuel : nat) (acc : list expr) : prog (list expr) :=
   | S f =>
       d <- parse_dimension fuel ;;
       let acc' := acc ++ [d] in
-      t <- scan_p ;;
+      t <- scan_iw fuel ;;
       match ti_tok t with
       | COMMA => dimensions_loop f acc'
       | _ => unscan_p ;;; Ret acc'
